@@ -2,12 +2,15 @@ package c20
 
 import (
 	"fmt"
+	"os"
 	"sort"
 	"strconv"
 	"strings"
 
 	"github.com/vektah/gqlparser/v2/ast"
 	"pgregory.net/rapid"
+
+	"verif/harness/pbt"
 )
 
 // node is one selection of a generated operation: a field, an inline fragment or a named
@@ -227,6 +230,13 @@ func (g *opGen) selectable(def *ast.Definition, leavesOnly bool) []*ast.FieldDef
 	return out
 }
 
+// steering: the generator avoids the class of a finding only while it is listed as known
+// (recorded, unrepaired); once it is fixed the class is explored like everything else.
+// C20_NO_STEER=1 switches all steering off (to try a candidate repair with an overlay).
+func steering(finding string) bool {
+	return os.Getenv("C20_NO_STEER") == "" && pbt.IsKnown(finding)
+}
+
 // steerAway reports (and counts) that the chosen field falls into a recorded finding class
 // that depends only on which field is selected where; the selection is then skipped so that
 // the search continues behind the finding (its directed probe keeps watching it).
@@ -236,15 +246,17 @@ func (g *opGen) steerAway(def *ast.Definition, f *ast.FieldDefinition, anc ances
 		return false
 	}
 	switch {
-	case u.Kind == unitResolver && anc.nestedList:
+	case u.Kind == unitResolver && anc.nestedList && steering(findNestedListParent):
 		g.excluded[findNestedListParent] = true
 		return true
-	case u.Kind == unitResolver && anc.abstract:
+	case u.Kind == unitResolver && anc.abstract && steering(findResolverInUnion):
 		g.excluded[findResolverInUnion] = true
 		return true
 	}
 	if ok, finding := g.usable(u.Key); !ok {
-		g.excluded[finding] = true
+		if finding != "" {
+			g.excluded[finding] = true
+		}
 		return true
 	}
 	return false
